@@ -14,8 +14,14 @@ Bind: the package of the CURRENT working tree is copied to scratch, its Cython s
       vectors run in-process through the pure-Python sources.  Both are compared with the SAME TLA+ expectation; a case
       on which the two builds give different results is a violation (both equal to the specification => equal to each
       other on the explored set).
-Not decided here: the C murmur3 extension vs the pure-Python murmur3 (hash arithmetic, see C08) - the extension is
-      only built and imported; numpy_parser (numpy is not installed); types outside Codec.tla's alphabet.
+Murmur3 clause: spec/Tokens.tla (C08's reference definition of Cassandra's MurmurHash3_x64_128 variant and of the
+      Murmur3Partitioner token) is enumerated by TLC on a small key set - every tail size with 0..MaxBlocks full blocks, a
+      byte with the sign bit set at every tail position and at block positions, the published vectors - and the compiled
+      cassandra.cmurmur3 of the same build (checks/_tokens.run_compiled, the machinery of C08's thorough tier) and the
+      pure-Python cassandra.murmur3 are both compared with the specification's value; a key on which they differ is a
+      violation.  C08 holds the large key set.
+Not decided here: numpy_parser (numpy is not installed); types outside Codec.tla's alphabet; keys outside the small
+      murmur3 set (see C08).
 """
 import fcntl
 import hashlib
@@ -42,8 +48,9 @@ META = {
                   "pure-Python sources both process every vector (value codecs, and ROWS bodies through ListParser and "
                   "LazyParser) and are compared with the same TLA+ expectation; any case on which the two builds differ "
                   "is reported. Exhaustive over the enumerated space.",
-    "level_note": SCOPE + " The C-vs-Python murmur3 comparison is hash arithmetic and is NOT decided (the extension is "
-                  "only built and imported). Trusted: TLC; Codec.tla; the build recipe mirrors setup.py (cythonize + "
+    "level_note": SCOPE + " The murmur3 clause is decided on a small enumerated key set only (Tokens.tla: every tail size "
+                  "with 0-1 (thorough 0-2) full blocks, a negative byte at every tail position, the published vectors; "
+                  "thorough adds the sign-subset lattice of tails up to 8 bytes); C08 covers the larger set. Trusted: TLC; Codec.tla; the build recipe mirrors setup.py (cythonize + "
                   "build_ext, default flags) for bytesio, cython_utils, deserializers, obj_parser, parsing, row_parser, "
                   "cqltypes, protocol, util, cmurmur3 - cluster/connection/... (no decoding) and numpy_parser (no numpy) "
                   "are not built; result bodies are limited to ROWS with two columns of one type (metadata variants are "
@@ -266,6 +273,91 @@ def _cls(rec):
     return "other"
 
 
+def murmur3_constants(quick):
+    if quick:
+        return {"Families": {"anchor", "onehot"}, "MaxBlocks": 1, "OneHotBlocks": False, "SignsBlocks": {0},
+                "SignsMaxTail": 1, "SignPairIds": {1}, "LcgSeeds": {1}}
+    return {"Families": {"anchor", "onehot", "const", "signs"}, "MaxBlocks": 2, "OneHotBlocks": False, "SignsBlocks": {0, 1},
+            "SignsMaxTail": 8, "SignPairIds": {1, 2}, "LcgSeeds": {1}}
+
+
+def run_murmur3(ctx, build_dir):
+    """the murmur3 clause: compiled cmurmur3 of the build and pure-Python murmur3, both against Tokens.tla.
+    -> number of violation groups reported"""
+    from checks import _tokens
+    from harness.replay import tokens
+    consts = murmur3_constants(ctx.quick)
+    res, states, cases = _tokens.enumerate_done("c07m3", consts, ctx)
+    ctx.add_tlc(res, "murmur3 keys (Tokens.tla)")
+    if res.violation:
+        ctx.violation("TLC: invariant %s violated in Tokens.tla" % res.invariant, replay={"trace": [s for _, s in res.trace()]},
+                      signature="spec:Tokens:" + str(res.invariant))
+        return 1
+    states = [s for s in states if s["fam"] == "m3"]
+    if len(states) != cases or not states:
+        raise tlc.MachineryError("murmur3: %d initial states but %d computed states" % (cases, len(states)))
+    negpos, tails = {}, {}
+    for st in states:
+        try:
+            tokens.check_facts(st)
+        except ValueError as ex:
+            raise tlc.MachineryError(str(ex))
+        f = tokens.features(st)
+        tails.setdefault(f["blocks"], set()).add(f["tail"])
+        negpos.setdefault(f["blocks"], set()).update(f["neg_tail"])
+    for nb in range(consts["MaxBlocks"] + 1):
+        if negpos.get(nb, set()) != set(range(15)) or not set(range(1, 16)) <= tails.get(nb, set()):
+            raise tlc.MachineryError("vacuity: murmur3 keys with %d blocks: negative byte only at tail positions %s, tail sizes %s"
+                                     % (nb, sorted(negpos.get(nb, ())), sorted(tails.get(nb, ()))))
+    pure = tokens.run_states(tokens.Impl.pure(), states)
+    comp = _tokens.run_compiled(ctx, build_dir, states)
+
+    def table(out):
+        t = {}
+        for d in out["devs"]:
+            what = "murmur3" if d["what"].endswith("murmur3") else d["what"]
+            t[(d["i"], what)] = d
+        return t
+    pt, ct = table(pure), table(comp)
+    # self-test of the subprocess path: a corrupted expectation must come back as a deviation
+    probe = next(s for s in states if tokens.features(s)["neg_tail"])
+    bad = dict(probe, res=dict(probe["res"], h=dict(probe["res"]["h"], neg=not probe["res"]["h"]["neg"])))
+    def verdict(st):          # judged as "the verdict changes": also right when the build under test is itself broken
+        return sorted((d["what"], d["got"], str(d["expected"])) for d in _tokens.run_compiled(ctx, build_dir, [st])["devs"])
+    if verdict(bad) == verdict(probe):
+        raise tlc.MachineryError("binding self-test failed: the compiled cmurmur3 subprocess did not notice a corrupted expectation")
+    ctx.evaluations += pure["evaluations"] + comp["evaluations"]
+    ctx.traces_validated += len(states)
+    for st in states:
+        f = tokens.features(st)
+        if f["neg_tail"] or f["blocks"]:
+            ctx.nontrivial(("m3", bytes(st["key"]).hex()))
+    ctx.sample(tokens.describe(probe))
+    ctx.note("murmur3", {"keys": len(states), "constants": {k: (sorted(v) if isinstance(v, (set, frozenset)) else v) for k, v in consts.items()},
+                         "evaluations_compiled": comp["evaluations"], "evaluations_pure": pure["evaluations"],
+                         "deviations_from_spec_compiled": len(ct), "deviations_from_spec_pure": len(pt), "compiled_info": comp["info"],
+                         "negative_byte_at_tail_positions": {str(k): sorted(v) for k, v in negpos.items()}})
+    groups = {}
+    for key in sorted(set(pt) | set(ct), key=str):
+        c, p_ = ct.get(key), pt.get(key)
+        if (c or {}).get("got") == (p_ or {}).get("got"):
+            continue
+        st = states[key[0]]
+        sig = "differs:murmur3:%s:compiled=%s:pure=%s" % (tokens.failure_class(st), "other" if c else "spec", "other" if p_ else "spec")
+        groups.setdefault(sig, []).append((key, c, p_))
+    for sig in sorted(groups):
+        members = groups[sig]
+        key, c, p_ = min(members, key=lambda m: (len(states[m[0][0]]["key"]), m[0][0], m[0][1]))
+        st = states[key[0]]
+        ctx.violation("the compiled cmurmur3 and the pure-Python murmur3 differ on %d enumerated keys (%s); smallest: %s %s: "
+                      "compiled -> %s, pure -> %s, specification -> %s"
+                      % (len({m[0][0] for m in members}), tokens.failure_class(st), key[1], tokens.describe(st),
+                         c["got"] if c else "as specified", p_["got"] if p_ else "as specified", (c or p_)["expected"]),
+                      replay={"murmur3": True, "state": st, "what": key[1], "compiled": c, "pure": p_,
+                              "cases": len({m[0][0] for m in members})}, signature=sig)
+    return len(groups)
+
+
 def run(ctx):
     runs = codec.enumerate_cases(ctx, tlc)
     if runs is None:
@@ -296,8 +388,6 @@ def run(ctx):
     ctx.note("vectors", {"value_cases": len(states), "rows_decoded_compiled": compiled["rows"], "cells_decoded_compiled": compiled["cells"],
                          "rows_decoded_pure": pure["rows"], "cells_decoded_pure": pure["cells"],
                          "deviations_from_spec_compiled": len(compiled["devs"]), "deviations_from_spec_pure": len(pure["devs"])})
-    ctx.note("murmur3", "cmurmur3 is built and imported only; its agreement with the pure-Python murmur3 is hash arithmetic "
-                        "and is not decided by this check")
     ctx.note("rule", "one case = one TLC state (type tree, protocol version, value | out-of-range number | null/empty cell); "
                      "each is run through the compiled and the pure cqltypes and, as ROWS cells, through ListParser, LazyParser "
                      "and the pure row decoder; non-trivial as in C02")
@@ -324,6 +414,8 @@ def run(ctx):
         raise tlc.MachineryError("binding self-test failed: the comparison of the two builds does not report what it should")
     ctx.note("binding_selftest", {"corrupted_rejected": 2})
 
+    run_murmur3(ctx, build_dir)
+
     groups = {}
     by_id = {codec.case_id(s): s for s in states}
     for key, crec, prec in compare(pure, compiled):
@@ -340,7 +432,7 @@ def run(ctx):
                       replay={"key": key, "compiled": crec, "pure": prec, "cases": len(members),
                               "state": by_id.get(key.split("|")[2 if key.startswith("rows|") else 1])},
                       signature=sig)
-    ctx.assumptions += [SCOPE, "murmur3 C extension vs pure Python: not decided",
+    ctx.assumptions += [SCOPE, "murmur3 C extension vs pure Python: decided on the small enumerated key set of this check only (C08: the large one)",
                         "the compiled build is the one setup.py would produce for these modules with the installed Cython / gcc"]
 
 
@@ -348,6 +440,20 @@ def replay(ctx, obj):
     st = obj.get("state")
     if st is None:
         print("no state recorded")
+        return
+    if obj.get("murmur3"):
+        from checks import _tokens
+        from harness.replay import tokens
+        build_dir, binfo = build_compiled(ctx)
+        print("case: %s" % tokens.describe(st))
+        c = _tokens.run_compiled(ctx, build_dir, [st])["devs"]
+        p = tokens.run_states(tokens.Impl.pure(), [st])["devs"]
+        for d in c + p:
+            print("  %s [%s]: specification %s, code %s" % (d["what"], d["impl"], d["expected"], d["got"]))
+        if sorted(d["got"] for d in c) != sorted(d["got"] for d in p):
+            ctx.violation("replayed: the builds still differ", replay=obj)
+        else:
+            print("  no difference")
         return
     build_dir, binfo = build_compiled(ctx)
     print("case: %s" % codec.describe(st))
